@@ -1158,7 +1158,8 @@ func directedOverlap(c *ctx) {
 					if variant == 3 {
 						// several properties in one call, each left to its own default handler (one has none)
 						rot := append(append([]string{}, props[again:first]...), props[:again]...)
-						ops = append(ops, mk(append(rot, "x-unregistered"), nil, nil))
+						// ... or only a longer or shorter name that has one: color-scheme, margin-inline-start, colo
+						ops = append(ops, mk(append(rot, "x-unregistered", "color-scheme", "margin-inline-start", "colo", "width-"), nil, nil))
 					} else {
 						ops = append(ops, mk(append([]string{}, props[:first]...), bmx.NewRE(`^[a-z]+$`), nil))
 					}
@@ -1174,7 +1175,7 @@ func directedOverlap(c *ctx) {
 					for _, el := range []string{"b", "u", "my-x"} {
 						for _, v := range svals {
 							doc := "<" + el + " style=\""
-							for _, p := range append(props, "x-unregistered") {
+							for _, p := range append(props, "x-unregistered", "color-scheme", "margin-inline-start", "colo", "width-") {
 								doc += p + ": " + v + "; "
 							}
 							c.san(pid, pol, []byte(doc+"\">t</"+el+">"))
